@@ -508,7 +508,7 @@ Proof.
   intros st I. pose proof I as (I0 & (T1 & T2 & T3) & _ & _ & (_ & Q2 & _) & _).
   apply inv_set_timers; [exact I| | |].
   - split; [|split].
-    + intros i t H. apply nth_error_app_new in H. destruct H as [H|[_ ->]]; [eauto|cbn; congruence].
+    + intros i t H. apply nth_error_app_new in H. destruct H as [H|[_ ->]]; [apply (T1 _ _ H)|cbn; split; congruence].
     + intros i t H. apply nth_error_app_new in H. destruct H as [H|[_ ->]]; [eauto|cbn; lia].
     + intros i j ti tj Hi Hj Si Sj E. apply nth_error_app_new in Hi. apply nth_error_app_new in Hj.
       destruct Hi as [Hi|[_ ->]]; [|cbn in Si; congruence]. destruct Hj as [Hj|[_ ->]]; [|cbn in Sj; congruence]. eauto.
@@ -537,7 +537,7 @@ Proof.
     - exists t'. auto. }
   apply inv_set_timers; [exact I| | |].
   - split; [|split].
-    + intros j t' H E. destruct (N j t' H) as (t & A & B & C & D). rewrite B. apply (T1 j t A). congruence.
+    + intros j t' H. destruct (N j t' H) as (t & A & B & C & D). rewrite B, D. apply (T1 j t A).
     + intros j t' H. destruct (N j t' H) as (t & A & B & C & D). rewrite C. eauto.
     + intros a b ta tb Ha Hb Sa Sb E. destruct (N a ta Ha) as (t1 & A1 & B1 & C1 & D1). destruct (N b tb Hb) as (t2 & A2 & B2 & C2 & D2).
       apply (T3 a b t1 t2); congruence.
@@ -565,7 +565,7 @@ Proof.
   split.
   - apply inv_set_timers; [exact I| | |].
     + split; [|split].
-      * intros j t' H E. destruct (N j t' H) as [[_ A]|[_ (t & A & ->)]]; [eauto|]. destruct (G t A) as (_ & _ & X). congruence.
+      * intros j t' H. destruct (N j t' H) as [[_ A]|[_ (t & A & ->)]]; [apply (T1 _ _ A)|]. destruct (G t A) as (X1 & _ & X3). rewrite X1, X3. split; congruence.
       * intros j t' H. destruct (N j t' H) as [[_ A]|[_ (t & A & ->)]]; [eauto|]. destruct (G t A) as (_ & X & _). rewrite X. eauto.
       * intros a b ta tb Ha Hb Sa Sb E.
         destruct (N a ta Ha) as [[Na A]|[_ (t & A & ->)]]; [|destruct (G t A) as (X & _); congruence].
@@ -608,12 +608,12 @@ Qed.
 
 Lemma inv_timer_activate : forall i tnew t0 st, inv st ->
   nth_error (timers st) i = Some t0 -> t_state t0 = Empty ->
-  t_state tnew = Active -> t_uid tnew < next_uid st ->
+  t_state tnew = Active -> t_exp tnew <> None -> t_uid tnew < next_uid st ->
   (forall j t, nth_error (timers st) j = Some t -> t_uid t < t_uid tnew) ->
   ~ gone (out st) 1 (t_uid tnew) ->
   inv (set_timers (upd_nth i (fun _ => tnew) (timers st)) st).
 Proof.
-  intros i tnew t0 st I Hn He Ha Hu Hf Hg. pose proof I as (I0 & (T1 & T2 & T3) & _ & _ & (_ & Q2 & _) & _).
+  intros i tnew t0 st I Hn He Ha Hx Hu Hf Hg. pose proof I as (I0 & (T1 & T2 & T3) & _ & _ & (_ & Q2 & _) & _).
   assert (N : forall j t', nth_error (upd_nth i (fun _ => tnew) (timers st)) j = Some t' ->
               (j <> i /\ nth_error (timers st) j = Some t') \/ (j = i /\ t' = tnew)).
   { intros j t' H. rewrite nth_upd_nth in H. destruct (Nat.eqb i j) eqn:E.
@@ -621,7 +621,7 @@ Proof.
     - apply Nat.eqb_neq in E. left. split; [congruence|exact H]. }
   apply inv_set_timers; [exact I| | |].
   - split; [|split].
-    + intros j t' H E. destruct (N j t' H) as [[_ A]|[_ ->]]; [eauto|exact Ha].
+    + intros j t' H. destruct (N j t' H) as [[_ A]|[_ ->]]; [apply (T1 _ _ A)|split; intros _; assumption].
     + intros j t' H. destruct (N j t' H) as [[_ A]|[_ ->]]; [eauto|exact Hu].
     + intros a b ta tb Ha' Hb Sa Sb E.
       destruct (N a ta Ha') as [[Na A]|[-> ->]]; destruct (N b tb Hb) as [[Nb B]|[-> ->]]; auto.
@@ -669,6 +669,7 @@ Proof.
     - rewrite T4. exact N0.
     - exact E0.
     - reflexivity.
+    - cbn. discriminate.
     - rewrite U4. cbn. lia.
     - intros j t H. rewrite T4 in H. destruct I1 as (_ & (_ & X & _) & _). cbn. apply (X j t H).
     - cbn [out emit set_out s4 tnew t_uid]. intros Hg. apply (gone_neutral (EvAdd 1 n p)) in Hg; [|exact Logic.I].
@@ -917,6 +918,7 @@ Lemma poll_add_gen_ok : forall g p fd ev key st, inv st ->
   inv (snd (poll_add_gen g p fd ev key st)) /\ opframe st (snd (poll_add_gen g p fd ev key st)).
 Proof.
   intros g p fd ev key st I. unfold poll_add_gen.
+  destruct (fx_pollreuse (fx st) && existsb (fd_is_live fd) (polls st)); [split; [exact I|apply opframe_refl]|].
   destruct (poll_slot_spec st I) as (I1 & F1 & U1 & O1 & (e0 & N0 & E0)). destruct (poll_slot st) as [i s1]. cbn [fst snd] in *.
   unfold fresh_uid. set (n := next_uid s1). set (s2 := set_next_uid (n + 1) s1).
   assert (I2 : inv s2) by (apply inv_bump_uid; exact I1).
